@@ -414,6 +414,28 @@ Definition assemble (host path : string) (q : values) : option called :=
   | _ => None
   end.
 
+(* the glue of NewHTTPProxyDetailed made explicit: the balancer's URL is serialised
+   (request.URL.String()) and http.NewRequest PARSES THAT STRING AGAIN; the executor sees the
+   fields of the re-parsed URL.  url_rest is URL.String() after scheme://host. *)
+Definition url_rest (u : purl) : string :=
+  (escaped_path u ++ query_suffix u ++
+   (if str_eqb (u_frag u) "" then EmptyString else String (chr c_hash) (escaped_fragment u)))%string.
+
+Definition observe (u : purl) : called :=
+  {| o_host := u_host u; o_path := u_path u; o_rawquery := u_rawquery u;
+     o_frag := u_frag u; o_wire := (escaped_path u ++ query_suffix u)%string |}.
+
+Definition assemble_glue (host path : string) (q : values) : option called :=
+  match url_parse host path with
+  | POk u0 =>
+      let u := append_query u0 q in
+      match url_parse (u_host u) (url_rest u) with
+      | POk u' => Some (observe u')
+      | _ => None
+      end
+  | _ => None
+  end.
+
 (* ------------------------------------------------------------------------------------ *)
 (* gin: paramChecker and the way a request line reaches it *)
 
